@@ -49,7 +49,15 @@ def space(tier, seed):
             q['items'] = list(base) + [('unnest', ('list', F('a', 1), F('a', 2)))]
         qs.append(q)
     B = [[k1, 'p'], [k1, 'q'], [k2, 'r']]
-    return dict(rows=rows, qs=qs, B=B, maxrows=maxrows, k1=k1, k2=k2)
+    # value-domain slice for DISTINCT: records that differ only by '' vs None, or by 2 vs '2', are different records
+    vq = []
+    for base in ([F('a', 2)], [F('a', 1), F('a', 2)], [('unnest', ('list', ('NF',), F('a', 2)))], [F('a', 1), ('unnest', ('list', ('NF',), F('a', 2), ('none',), ('lit', '')))]):
+        for d in ('distinct', 'count'):
+            for o in (None, {'keys': [F('a', 1)], 'desc': False}, {'keys': [F('a', 1)], 'desc': True}):
+                for b in (None, ('LIMIT', 2)):
+                    vq.append({'kind': 'select', 'items': list(base), 'where': None, 'join': None, 'order': o, 'distinct': d, 'top': b})
+    vrows = [[k1, ''], [k1], [k1, '2'], [k2, '2'], [k2, 'None']]
+    return dict(rows=rows, qs=qs, B=B, maxrows=maxrows, k1=k1, k2=k2, vq=vq, vrows=vrows)
 
 
 def lasso_space(tier, seed):
@@ -147,6 +155,7 @@ def run_shard(sh):
     if sh['part'] == 'A':
         sp_ = space(sh['tier'], sh['seed'])
         tabs = list(qcheck.tables_upto(sp_['rows'], sp_['maxrows']))
+        jscases = []
         for qi, q in enumerate(sp_['qs'][sh['lo']:sh['hi']]):
             text = refql.render(q)
             B = sp_['B'] if q['join'] is not None else None
@@ -155,6 +164,7 @@ def run_shard(sh):
                 if n is not None and n > len(A) + 1 and q['join'] is None and not any(it[0] == 'unnest' for it in q['items']):
                     continue    # the quantifier: n in 0..|T|+1
                 exp, got, why = qcheck.run_case(res, q, A, B, diagnose=diagnose, text=text)
+                jscases.append((q, A, B, None, None))
                 res.states += 1
                 res.transitions += 1 if A else 0
                 if why is None and exp.error is None:
@@ -177,6 +187,20 @@ def run_shard(sh):
                 res.outcome(repr(exp.records)[:60])
             if qi % 211 == 5:
                 res.sample({'query': text, 'tables': len(tabs)})
+        if sh.get('vslice'):
+            vt = list(qcheck.tables_upto(sp_['vrows'], 3))
+            for q in sp_['vq']:
+                text = refql.render(q)
+                for A in vt:
+                    exp, got, why = qcheck.run_case(res, q, A, None, diagnose=diagnose, text=text)
+                    jscases.append((q, A, None, None, None))
+                    res.states += 1
+                    if why is None and exp.error is None and q['distinct'] == 'distinct':
+                        plain = dict(q); plain['distinct'] = None; plain['top'] = None
+                        allr = refql.evaluate(plain, A).records
+                        if len(set(map(lambda r: tuple(map(str, r)), allr))) < len(set(map(lambda r: tuple(map(repr, r)), allr))):
+                            res.feat('distinct_records_equal_as_text_only')
+        qcheck.run_js_cases(res, jscases, diagnose)
     else:
         sp_ = lasso_space(sh['tier'], sh['seed'])
         tabs = [T for T in qcheck.tables_upto(sp_['rows'], sp_['maxrows']) if T]
@@ -194,6 +218,7 @@ def main(tier, seed):
     sp_ = space(tier, seed)
     ls = lasso_space(tier, seed)
     shards = [{'part': 'A', 'tier': tier, 'seed': seed, 'lo': lo, 'hi': hi} for lo, hi in core.chunks(len(sp_['qs']), 160)]
+    shards.append({'part': 'A', 'tier': tier, 'seed': seed, 'lo': 0, 'hi': 0, 'vslice': True})
     shards += [{'part': 'B', 'tier': tier, 'seed': seed, 'lo': lo, 'hi': hi} for lo, hi in core.chunks(len(ls['qs']), 32)]
     res = core.run_shards('vf.checks.c02', shards)
     return core.finish(PID, tier, seed, res, t0,
@@ -202,7 +227,7 @@ def main(tier, seed):
              'non-trivial = ties in the sort key, duplicates actually removed, or n smaller than the unbounded result (A) / bound reached exactly (B)',
         assumptions=['sort keys are mutually comparable strings', 'RefQL models a bounded streaming query as stopping at the bound', 'B: cases whose n-th output never appears are skipped (the query legitimately waits)'],
         extra={'queries_A': len(sp_['qs']), 'queries_B': len(ls['qs'])},
-        min_features={'sort_ties': 1000, 'duplicates_removed': 1000, 'truncating': 1000, 'lasso_executions': 500})
+        min_features={'distinct_records_equal_as_text_only': 50, 'sort_ties': 1000, 'duplicates_removed': 1000, 'truncating': 1000, 'lasso_executions': 500})
 
 
 def replay(rep):
